@@ -1,6 +1,7 @@
 import Reduino.Driver.Util
 import Reduino.Driver.Core
 import Reduino.Lang.Render
+import Reduino.Lang.InF
 /- `lang|tr|<sexpr>`, `lang|pyrun|<sexpr>|N|fuel`, `lang|crun|<sexpr>|N|fuel` -/
 namespace Reduino.Driver
 open Reduino.Lang
@@ -89,6 +90,10 @@ def handleLang (fields : List String) : Option String :=
       | .ok c => some ("ok " ++ hexOf ("\n".intercalate c.lines))
       | .error .breakInMainLoop => some "reject break-in-main-loop"
       | .error .outsideFragment => some "outside-fragment"
+  | ["lang", "inf", src] =>
+    match parseProg src with
+    | none => some "bad-prog"
+    | some p => some (if InF p then "in" else "out")
   | ["lang", "pyrun", src, n, fuel] =>
     match parseProg src with
     | none => some "bad-prog"
